@@ -14,6 +14,10 @@ def instances():
         out.append(Inst(id="c11.rollback.r%d" % r, props=["C11"], harness="h_c11.cpp", entry="c11_rollback", tus=TUS, defs=["VX_REDEF=%d" % r],
                         stubs=FMT_STUBS + ["_ZN4bloc7ContextD0Ev", "_ZN4bloc7ContextD2Ev"] + CONTAINER_STUBS, unwind=4, timeout=300,
                         bounds="2 declared functions; the (re)defined one is an instance parameter (first / last / new)", inputs="presence of a stale backup"))
+    for r in (0, 2):
+        out.append(Inst(id="c11.rollback.later.r%d" % r, props=["C11"], harness="h_c11.cpp", entry="c11_rollback", tus=TUS, defs=["VX_REDEF=%d" % r, "VX_LATER=1"],
+                        stubs=FMT_STUBS + ["_ZN4bloc7ContextD0Ev", "_ZN4bloc7ContextD2Ev"] + CONTAINER_STUBS, unwind=4, unwindset=EMPTY_DECL_UNWIND, timeout=300,
+                        bounds="2 declared functions; the text (re)defines the first one / a new one successfully and is rejected by a later statement", inputs="presence of a stale backup"))
     for st in (2, 3):
         out.append(Inst(id="c11.parsingend.s%d" % st, props=["C11", "C02"], harness="h_c11.cpp", entry="c11_parsing_end", tus=TUS, defs=["VX_STEPS=%d" % st],
                         stubs=FMT_STUBS + CTX_STUBS + CONTAINER_STUBS, unwind=st + 2, unwindset=EMPTY_DECL_UNWIND, timeout=600,
